@@ -2,7 +2,7 @@
    GSM 03.40 layout (Spec/Gsm0340.v) of an ARBITRARY well-formed SMS-DELIVER /
    SMS-SUBMIT value: decoded values are the standard's, re-encoding reproduces
    the octets, outside the listed known classes; witnesses for each class. *)
-From V Require Import Model.TpduRun Spec.Gsm0340 Proofs.SmsOctetTables.
+From V Require Import Model.TpduRun Spec.Gsm0340 Proofs.SmsOctetTables Proofs.TpduAlnum.
 From Coq Require Import ZifyN ZifyNat ZifyBool.
 Ltac Zify.zify_post_hook ::= Z.div_mod_to_equations.
 Open Scope N_scope.
@@ -264,6 +264,73 @@ Proof.
   rewrite N.mod_small by lia. lia.
 Qed.
 
+(* ------------------------------------------------------------------ alphanumeric addresses *)
+Definition addr_alnum_val (a : s_addr) (ss : list N) : taddr :=
+  {| a_npi := sa_npi a; a_ton := sa_ton a; a_no := map g7_rune ss |}.
+(* text without CR and ESC; not 8k+7 septets (then the seven fill bits would decode as an extra '@') *)
+Definition alnum_dec_ok (ss : list N) : Prop := plain ss /\ (List.length ss mod 8 <> 7)%nat.
+(* D21: additionally the number of useful semi-octets must be even for the length octet to come back *)
+Definition alnum_rt_ok (ss : list N) : Prop := plain ss /\ ((7 * nlen ss + 3) / 4) mod 2 = 0.
+
+Lemma alnum_octets n : (((7 * n + 3) / 4 + 1) / 2 = (7 * n + 7) / 8)%nat.
+Proof. lia. Qed.
+
+Lemma addr_read_alnum a ss rest :
+  sa_val a = Alnum ss -> addr_wf a -> alnum_dec_ok ss ->
+  addr_read g7_table (tp_addr a ++ rest) = Ok (addr_alnum_val a ss, rest).
+Proof.
+  intros Hv [Hnpi [Hton Hwf]] [Hp Hn]. rewrite Hv in Hwf. destruct Hwf as [H5 [Hs Hlen]].
+  unfold tp_addr. rewrite Hv. unfold addr_read. cbn [app read_byte obind].
+  destruct (N.eqb_spec ((7 * nlen ss + 3) / 4) 0) as [E|_]; [lia|]. cbn [read_byte obind].
+  destruct (toa_bits (sa_ton a) (sa_npi a) Hton Hnpi) as [Hnp [Ht _]]. unfold toa_octet. rewrite Hnp, Ht.
+  assert (Hk : (((7 * nlen ss + 3) / 4 + 1) mod 256) / 2 = N.of_nat (List.length (pack7 ss))).
+  { rewrite pack7_length. unfold packed_len, nlen in *. rewrite N.mod_small by lia.
+    pose proof (alnum_octets (List.length ss)). lia. }
+  rewrite Hk. rewrite read_n_exact; [|lia|rewrite pack7_length; unfold packed_len, nlen in *; lia].
+  cbn [obind]. unfold addr_text. destruct (N.eqb_spec (sa_ton a) 5); [|contradiction].
+  rewrite ta_decode_pack7 by assumption. reflexivity.
+Qed.
+
+Lemma addr_write_alnum a ss :
+  sa_val a = Alnum ss -> addr_wf a -> alnum_rt_ok ss -> addr_write g7_table (addr_alnum_val a ss) = tp_addr a.
+Proof.
+  intros Hv [Hnpi [Hton Hwf]] [Hp Heven]. rewrite Hv in Hwf. destruct Hwf as [H5 [Hs Hlen]].
+  assert (Hne : ss <> []) by (apply nlen_pos_nonempty; lia).
+  assert (Hn7 : (List.length ss mod 8 <> 7)%nat) by (unfold nlen in *; lia).
+  unfold addr_write, addr_body, addr_alnum_val. cbn [a_no a_ton a_npi].
+  destruct (map g7_rune ss) as [|c x] eqn:E; [destruct ss; [contradiction|discriminate E]|]. rewrite <- E.
+  destruct (N.eqb_spec (sa_ton a) 5); [|contradiction].
+  destruct (toa_bits (sa_ton a) (sa_npi a) Hton Hnpi) as [_ [_ Hk]]. rewrite Hk.
+  rewrite ta_encode_runes by assumption.
+  unfold tp_addr. rewrite Hv. unfold toa_octet. f_equal.
+  unfold blen. cbn [List.length]. rewrite pack7_length. unfold packed_len, nlen in *.
+  pose proof (alnum_octets (List.length ss)). rewrite N.mod_small by lia. lia.
+Qed.
+
+Definition addr_val (a : s_addr) : taddr :=
+  match sa_val a with Digits ds => addr_num_val a ds | Alnum ss => addr_alnum_val a ss end.
+Definition addr_dec_ok (a : s_addr) : Prop := match sa_val a with Digits _ => True | Alnum ss => alnum_dec_ok ss end.
+Definition addr_rt_ok (a : s_addr) : Prop := match sa_val a with Digits _ => True | Alnum ss => alnum_rt_ok ss end.
+
+Lemma addr_rt_dec a : addr_wf a -> addr_rt_ok a -> addr_dec_ok a.
+Proof.
+  unfold addr_rt_ok, addr_dec_ok. intros [_ [_ Hwf]]. destruct (sa_val a) as [ds|ss]; [auto|].
+  destruct Hwf as [_ [_ Hlen]]. intros [Hp He]. split; [exact Hp|]. unfold nlen in *. lia.
+Qed.
+Lemma addr_read_spec a rest : addr_wf a -> addr_dec_ok a ->
+  addr_read g7_table (tp_addr a ++ rest) = Ok (addr_val a, rest).
+Proof.
+  unfold addr_dec_ok, addr_val. intros Hw Hd. destruct (sa_val a) as [ds|ss] eqn:E.
+  - apply addr_read_numeric; assumption.
+  - apply addr_read_alnum; assumption.
+Qed.
+Lemma addr_write_spec a : addr_wf a -> addr_rt_ok a -> addr_write g7_table (addr_val a) = tp_addr a.
+Proof.
+  unfold addr_rt_ok, addr_val. intros Hw Hd. destruct (sa_val a) as [ds|ss] eqn:E.
+  - apply addr_write_numeric; assumption.
+  - apply addr_write_alnum; assumption.
+Qed.
+
 (* ------------------------------------------------------------------ calendar: time.Date is the identity on real dates *)
 Definition all_dates : list (N * N * N) :=
   flat_map (fun yy => flat_map (fun mo => map (fun dd => (yy, mo, dd)) (map N.of_nat (seq 1 (N.to_nat (days_in_month yy mo)))))
@@ -356,10 +423,6 @@ Proof.
 Qed.
 
 (* ------------------------------------------------------------------ user data *)
-Lemma le_octets_length n v : List.length (le_octets n v) = n.
-Proof. revert v; induction n as [|n IH]; intros v; cbn [le_octets List.length]; [reflexivity|rewrite IH; reflexivity]. Qed.
-Lemma pack7_length ss : List.length (pack7 ss) = packed_len (List.length ss).
-Proof. unfold pack7. apply le_octets_length. Qed.
 
 (* what the decoder stores: the octets, zero-filled up to TP-UDL (a septet count exceeds the octet count) *)
 Definition ud_val (u : s_userdata) : bytes :=
@@ -596,10 +659,10 @@ Proof. intros Hf Hv Hw. unfold field_read. rewrite Hf. rewrite (sc_read_numeric 
 Lemma fr_sc_empty g st f rest :
   f_dkind f = KSCAddr -> field_read false g st f (0 :: rest) = Ok (TVAddr addr0, rest).
 Proof. intros Hf. unfold field_read. rewrite Hf. reflexivity. Qed.
-Lemma fr_addr g st f a ds rest :
-  f_dkind f = KAddr -> sa_val a = Digits ds -> addr_wf a ->
-  field_read false g st f (tp_addr a ++ rest) = Ok (TVAddr (addr_num_val a ds), rest).
-Proof. intros Hf Hv Hw. unfold field_read. rewrite Hf. rewrite (addr_read_numeric g a ds rest Hv Hw). reflexivity. Qed.
+Lemma fr_addr st f a rest :
+  f_dkind f = KAddr -> addr_wf a -> addr_dec_ok a ->
+  field_read false g7_table st f (tp_addr a ++ rest) = Ok (TVAddr (addr_val a), rest).
+Proof. intros Hf Hw Hd. unfold field_read. rewrite Hf. rewrite (addr_read_spec a rest Hw Hd). reflexivity. Qed.
 Lemma fr_byte g st f b rest : f_dkind f = KByte -> field_read false g st f (b :: rest) = Ok (TVByte b, rest).
 Proof. intros Hf. unfold field_read. rewrite Hf. reflexivity. Qed.
 Lemma fr_flags_nodir g st f fs b rest :
@@ -649,7 +712,7 @@ Proof. unfold is_numeric, digits_of. destruct (sa_val a); [reflexivity|contradic
 Definition deliver_vals (t : s_deliver) : list tval :=
   [TVAddr (addr_num_val (d_sc t) (digits_of (d_sc t)));
    TVFlags (unmarshal_flags DF (deliver_first_octet t) 0);
-   TVAddr (addr_num_val (d_oa t) (digits_of (d_oa t)));
+   TVAddr (addr_val (d_oa t));
    TVByte (d_pid t); TVByte (d_dcs t);
    TVTime (time_val (d_scts t));
    TVBytes (ud_val (d_ud t))].
@@ -664,14 +727,13 @@ Lemma tp_addr_head a : exists g r, tp_addr a = g :: r.
 Proof. unfold tp_addr. destruct (sa_val a); eauto. Qed.
 
 Theorem deliver_decode t :
-  deliver_wf t -> is_numeric (d_oa t) -> t_zneg (d_scts t) = false ->
+  deliver_wf t -> addr_dec_ok (d_oa t) -> t_zneg (d_scts t) = false ->
   sms_unmarshal (layout_deliver t) = Ok ("Deliver"%string, deliver_vals t).
 Proof.
   intros [Hsc [Hoa [Hpid [Hdcs [Hts Hud]]]]] Hnum Hz.
   pose proof Hsc as [Hsc_wf Hsc_num].
   assert (Hscv : sa_val (d_sc t) = Digits (digits_of (d_sc t))).
   { apply numeric_val. unfold is_numeric. destruct (sa_val (d_sc t)); [exact I|contradiction]. }
-  pose proof (numeric_val _ Hnum) as Hoav.
   destruct (deliver_first_octet_facts t) as [Hfo [Hmti _]].
   unfold sms_unmarshal, unmarshal, unmarshal_gen, layout_deliver.
   (* type detection *)
@@ -688,7 +750,7 @@ Proof.
   cbn [state_after f_dkind].
   erewrite fields_read_step; [|reflexivity|apply (fr_flags_nodir _ _ _ fs_DeliverFlags); reflexivity].
   cbn [state_after f_dkind fs_name fs_DeliverFlags String.eqb Ascii.eqb Bool.eqb].
-  erewrite fields_read_step; [|reflexivity|apply fr_addr; [reflexivity|exact Hoav|exact Hoa]].
+  erewrite fields_read_step; [|reflexivity|apply fr_addr; [reflexivity|exact Hoa|exact Hnum]].
   cbn [state_after f_dkind].
   erewrite fields_read_step; [|reflexivity|apply fr_byte; reflexivity].
   cbn [state_after f_dkind].
@@ -711,9 +773,9 @@ Lemma fw_sc g vpf f a ds : f_ekind f = KSCAddr -> sa_val a = Digits ds -> addr_w
 Proof. intros Hf Hv Hw. unfold field_write. rewrite Hf, sc_write_numeric by assumption. reflexivity. Qed.
 Lemma fw_sc_empty g vpf f : f_ekind f = KSCAddr -> field_write g vpf f (TVAddr addr0) = Ok [0].
 Proof. intros Hf. unfold field_write. rewrite Hf. reflexivity. Qed.
-Lemma fw_addr g vpf f a ds : f_ekind f = KAddr -> sa_val a = Digits ds -> addr_wf a ->
-  field_write g vpf f (TVAddr (addr_num_val a ds)) = Ok (tp_addr a).
-Proof. intros Hf Hv Hw. unfold field_write. rewrite Hf, addr_write_numeric by assumption. reflexivity. Qed.
+Lemma fw_addr vpf f a : f_ekind f = KAddr -> addr_wf a -> addr_rt_ok a ->
+  field_write g7_table vpf f (TVAddr (addr_val a)) = Ok (tp_addr a).
+Proof. intros Hf Hw Hd. unfold field_write. rewrite Hf, addr_write_spec by assumption. reflexivity. Qed.
 Lemma fw_byte g vpf f b : f_ekind f = KByte -> field_write g vpf f (TVByte b) = Ok [b].
 Proof. intros Hf. unfold field_write. rewrite Hf. reflexivity. Qed.
 Lemma fw_time g vpf f t : f_ekind f = KTime -> time_wf t -> t_zneg t = false ->
@@ -731,25 +793,25 @@ Proof. intros Hf Hn. unfold field_write. rewrite Hf, Hn. reflexivity. Qed.
 Definition ud_ends_in_zero (u : s_userdata) : Prop := last (ud_octets u) 1 = 0.   (* D22 *)
 
 Theorem deliver_roundtrip t :
-  deliver_wf t -> is_numeric (d_oa t) ->
+  deliver_wf t -> addr_rt_ok (d_oa t) ->                    (* not D21 (alphanumeric: plain text, even semi-octet count) *)
   d_udhi t = false -> d_rp t = false ->                       (* not D24 *)
   t_zneg (d_scts t) = false ->                                (* not D19 *)
   ~ ud_ends_in_zero (d_ud t) ->                               (* not D22 *)
   sms_remarshal (layout_deliver t) = Ok (layout_deliver t).
 Proof.
   intros Hwf Hnum Hudhi Hrp Hz Hud0.
-  unfold sms_remarshal, remarshal. fold sms_unmarshal. rewrite (deliver_decode t Hwf Hnum Hz). cbn [obind].
+  assert (Hdec : addr_dec_ok (d_oa t)) by (apply addr_rt_dec; [apply Hwf|exact Hnum]).
+  unfold sms_remarshal, remarshal. fold sms_unmarshal. rewrite (deliver_decode t Hwf Hdec Hz). cbn [obind].
   destruct Hwf as [Hsc [Hoa [Hpid [Hdcs [Hts Hud]]]]]. pose proof Hsc as [Hsc_wf Hsc_num].
   assert (Hscv : sa_val (d_sc t) = Digits (digits_of (d_sc t))).
   { apply numeric_val. unfold is_numeric. destruct (sa_val (d_sc t)); [exact I|contradiction]. }
-  pose proof (numeric_val _ Hnum) as Hoav.
   destruct (deliver_first_octet_facts t) as [_ [_ Hfo64]]. specialize (Hfo64 Hudhi Hrp).
   unfold marshal. change (e_layouts sms_env) with tpdu_layouts. rewrite find_deliver.
   cbn [tl_fields e_g7 sms_env]. set (vpf := vpf_scan _ _ _). clearbody vpf.
   unfold deliver_fields, deliver_vals.
   erewrite fields_write_step; [|apply fw_sc; [reflexivity|exact Hscv|exact Hsc_wf]].
   erewrite fields_write_step; [|apply (fw_flags_plain _ _ _ fs_DeliverFlags); reflexivity].
-  erewrite fields_write_step; [|apply fw_addr; [reflexivity|exact Hoav|exact Hoa]].
+  erewrite fields_write_step; [|apply fw_addr; [reflexivity|exact Hoa|exact Hnum]].
   erewrite fields_write_step; [|apply fw_byte; reflexivity].
   erewrite fields_write_step; [|apply fw_byte; reflexivity].
   erewrite fields_write_step; [|apply fw_time; [reflexivity|exact Hts|exact Hz]].
@@ -763,17 +825,16 @@ Definition submit_vals_list (t : s_submit) : list tval :=
   [TVAddr addr0;
    TVFlags (submit_vals (submit_first_octet t));
    TVByte (s_mr t);
-   TVAddr (addr_num_val (s_da t) (digits_of (s_da t)));
+   TVAddr (addr_val (s_da t));
    TVByte (s_pid t); TVByte (s_dcs t);
    TVVP (vp_val (s_vp t));
    TVBytes (ud_val (s_ud t))].
 
 Theorem submit_decode t :
-  submit_wf t -> is_numeric (s_da t) -> vp_known_ok (s_vp t) ->
+  submit_wf t -> addr_dec_ok (s_da t) -> vp_known_ok (s_vp t) ->
   sms_unmarshal (layout_submit t) = Ok ("Submit"%string, submit_vals_list t).
 Proof.
   intros [Hmr [Hda [Hpid [Hdcs [Hvp Hud]]]]] Hnum Hk.
-  pose proof (numeric_val _ Hnum) as Hdav.
   destruct (submit_first_octet_facts t) as [Hfo [Hvpf Hmti]].
   unfold sms_unmarshal, unmarshal, unmarshal_gen, layout_submit.
   assert (Egt : get_type (0 :: submit_first_octet t :: s_mr t :: tp_addr (s_da t) ++ s_pid t :: s_dcs t ::
@@ -789,7 +850,7 @@ Proof.
   cbn [state_after f_dkind fs_name fs_SubmitFlags String.eqb Ascii.eqb Bool.eqb u_pi st0].
   erewrite fields_read_step; [|reflexivity|apply fr_byte; reflexivity].
   cbn [state_after f_dkind].
-  erewrite fields_read_step; [|reflexivity|apply fr_addr; [reflexivity|exact Hdav|exact Hda]].
+  erewrite fields_read_step; [|reflexivity|apply fr_addr; [reflexivity|exact Hda|exact Hnum]].
   cbn [state_after f_dkind].
   erewrite fields_read_step; [|reflexivity|apply fr_byte; reflexivity].
   cbn [state_after f_dkind].
@@ -810,15 +871,15 @@ Lemma submit_vpf_scan a b c d e f0 v h : vpf_scan submit_fields [a; b; c; d; e; 
 Proof. destruct v; reflexivity. Qed.
 
 Theorem submit_roundtrip t :
-  submit_wf t -> is_numeric (s_da t) ->
+  submit_wf t -> addr_rt_ok (s_da t) ->                      (* not D21 *)
   vp_known_ok (s_vp t) ->                                     (* not D19 (absolute validity period) *)
   ~ ud_ends_in_zero (s_ud t) ->                               (* not D22 *)
   sms_remarshal (layout_submit t) = Ok (layout_submit t).
 Proof.
   intros Hwf Hnum Hk Hud0.
-  unfold sms_remarshal, remarshal. fold sms_unmarshal. rewrite (submit_decode t Hwf Hnum Hk). cbn [obind].
+  assert (Hdec : addr_dec_ok (s_da t)) by (apply addr_rt_dec; [apply Hwf|exact Hnum]).
+  unfold sms_remarshal, remarshal. fold sms_unmarshal. rewrite (submit_decode t Hwf Hdec Hk). cbn [obind].
   destruct Hwf as [Hmr [Hda [Hpid [Hdcs [Hvp Hud]]]]].
-  pose proof (numeric_val _ Hnum) as Hdav.
   destruct (submit_first_octet_facts t) as [Hfo [Hvpf Hmti]].
   unfold marshal. change (e_layouts sms_env) with tpdu_layouts. rewrite find_submit.
   cbn [tl_fields e_g7 sms_env].
@@ -828,7 +889,7 @@ Proof.
   erewrite fields_write_step; [|apply fw_sc_empty; reflexivity].
   erewrite fields_write_step; [|apply (fw_flags_submit _ _ _ fs_SubmitFlags); reflexivity].
   erewrite fields_write_step; [|apply fw_byte; reflexivity].
-  erewrite fields_write_step; [|apply fw_addr; [reflexivity|exact Hdav|exact Hda]].
+  erewrite fields_write_step; [|apply fw_addr; [reflexivity|exact Hda|exact Hnum]].
   erewrite fields_write_step; [|apply fw_byte; reflexivity].
   erewrite fields_write_step; [|apply fw_byte; reflexivity].
   erewrite fields_write_step; [|apply vp_write_spec; [exact Hvp|exact Hk|reflexivity]].
@@ -841,22 +902,29 @@ Proof.
 Qed.
 
 (* ------------------------------------------------------------------ the decoded values are the standard's *)
+(* the address text: the digits in ASCII, or the characters of the septets in the alphabet table of
+   the running code ([alphabet_table] below compares that table with GSM 03.38 6.2.1) *)
+Definition addr_text_spec (a : s_addr) : list N :=
+  match sa_val a with Digits ds => ascii_digits ds | Alnum ss => map g7_rune ss end.
+Lemma addr_val_text a : addr_val a = {| a_npi := sa_npi a; a_ton := sa_ton a; a_no := addr_text_spec a |}.
+Proof. unfold addr_val, addr_text_spec. destruct (sa_val a); reflexivity. Qed.
+
 (* (decoded address = digits as ASCII text with TON/NPI of the type-of-address octet; PID; DCS;
    civil time 2000+yy.. with the signed quarter-hour offset; validity period in seconds per
    9.2.3.12; user data octets, zero-filled up to TP-UDL) *)
 Theorem deliver_values t :
-  deliver_wf t -> is_numeric (d_oa t) -> t_zneg (d_scts t) = false ->
+  deliver_wf t -> addr_dec_ok (d_oa t) -> t_zneg (d_scts t) = false ->
   exists fl sc oa ts ud,
     sms_unmarshal (layout_deliver t) =
       Ok ("Deliver"%string, [TVAddr sc; TVFlags fl; TVAddr oa; TVByte (d_pid t); TVByte (d_dcs t); TVTime ts; TVBytes ud]) /\
     sc = {| a_npi := sa_npi (d_sc t); a_ton := sa_ton (d_sc t); a_no := ascii_digits (digits_of (d_sc t)) |} /\
-    oa = {| a_npi := sa_npi (d_oa t); a_ton := sa_ton (d_oa t); a_no := ascii_digits (digits_of (d_oa t)) |} /\
+    oa = {| a_npi := sa_npi (d_oa t); a_ton := sa_ton (d_oa t); a_no := addr_text_spec (d_oa t) |} /\
     time_civil ts = ((2000 + Z.of_N (t_yy (d_scts t)))%Z, Z.of_N (t_mo (d_scts t)), Z.of_N (t_dd (d_scts t)),
                      Z.of_N (t_hh (d_scts t)), Z.of_N (t_mi (d_scts t)), Z.of_N (t_ss (d_scts t)), time_offset_q (d_scts t)) /\
     ud = ud_octets (d_ud t) ++ repeat 0 (N.to_nat (udl (d_ud t)) - List.length (ud_octets (d_ud t))).
 Proof.
   intros Hwf Hnum Hz. do 5 eexists. split; [apply deliver_decode; assumption|].
-  split; [reflexivity|]. split; [reflexivity|]. split; [|reflexivity].
+  split; [reflexivity|]. split; [apply addr_val_text|]. split; [|reflexivity].
   apply time_value_spec; [apply Hwf|exact Hz].
 Qed.
 
@@ -866,11 +934,11 @@ Definition vp_decoded_seconds (v : vp) : option N :=
   match v with VPRel d => Some d | VPEnh d _ => Some d | _ => None end.
 
 Theorem submit_values t :
-  submit_wf t -> is_numeric (s_da t) -> vp_known_ok (s_vp t) ->
+  submit_wf t -> addr_dec_ok (s_da t) -> vp_known_ok (s_vp t) ->
   exists fl da v ud,
     sms_unmarshal (layout_submit t) =
       Ok ("Submit"%string, [TVAddr addr0; TVFlags fl; TVByte (s_mr t); TVAddr da; TVByte (s_pid t); TVByte (s_dcs t); TVVP v; TVBytes ud]) /\
-    da = {| a_npi := sa_npi (s_da t); a_ton := sa_ton (s_da t); a_no := ascii_digits (digits_of (s_da t)) |} /\
+    da = {| a_npi := sa_npi (s_da t); a_ton := sa_ton (s_da t); a_no := addr_text_spec (s_da t) |} /\
     vpf_of v = vpf_bits (s_vp t) /\ vp_decoded_seconds v = vp_seconds (s_vp t) /\
     (forall ts, s_vp t = VpAbsolute ts -> exists x, v = VPAbs x /\
         time_civil x = ((2000 + Z.of_N (t_yy ts))%Z, Z.of_N (t_mo ts), Z.of_N (t_dd ts), Z.of_N (t_hh ts), Z.of_N (t_mi ts), Z.of_N (t_ss ts), time_offset_q ts)) /\
@@ -878,7 +946,7 @@ Theorem submit_values t :
     ud = ud_octets (s_ud t) ++ repeat 0 (N.to_nat (udl (s_ud t)) - List.length (ud_octets (s_ud t))).
 Proof.
   intros Hwf Hnum Hk. do 4 eexists. split; [apply submit_decode; assumption|].
-  split; [reflexivity|]. split; [apply vpf_of_vp_val|].
+  split; [apply addr_val_text|]. split; [apply vpf_of_vp_val|].
   split; [destruct (s_vp t); reflexivity|].
   split; [|split; [|reflexivity]].
   - intros ts E. destruct Hwf as [_ [_ [_ [_ [Hvp _]]]]]. rewrite E in *. eexists. split; [reflexivity|].
@@ -983,3 +1051,35 @@ Lemma numeric_length_legacy_refuted :
   addr_write_legacy_len (addr_num_val w_oa (digits_of w_oa)) 5 = 9 /\
   hd 0 (addr_write g7_table (addr_num_val w_oa (digits_of w_oa))) = 10 /\ hd 0 (tp_addr w_oa) = 10.
 Proof. repeat split; vm_compute; reflexivity. Qed.
+
+(* ------------------------------------------------------------------ the alphabet table of the code against GSM 03.38 6.2.1 *)
+Lemma alphabet_sweep :
+  forallb (fun s => (s =? 9) || (s =? ESC) || (g7_rune s =? gsm_char s)) septets128 = true.
+Proof. vm_compute. reflexivity. Qed.
+Lemma alphabet_table s : s < 128 -> s <> 9 -> s <> ESC -> g7_rune s = gsm_char s.
+Proof.
+  intros Hs H9 He. pose proof alphabet_sweep as H. rewrite forallb_forall in H. specialize (H s (septets128_spec s Hs)).
+  destruct (N.eqb_spec s 9); [contradiction|]. destruct (N.eqb_spec s ESC); [contradiction|].
+  cbn [orb] in H. apply N.eqb_eq in H. exact H.
+Qed.
+(* D16: code 0x09 is U+00E7 in the code's table, U+00C7 in the standard *)
+Lemma alphabet_09_refuted : g7_rune 9 = 231 /\ gsm_char 9 = 199.
+Proof. split; vm_compute; reflexivity. Qed.
+
+(* non-vacuity for the alphanumeric branch: destination "Vodafone" (8 septets, 14 useful semi-octets) *)
+Definition w_alnum_ok : s_submit :=
+  {| s_rd := false; s_srr := false; s_udhi := false; s_rp := false; s_mr := 7;
+     s_da := {| sa_ton := 5; sa_npi := 0; sa_val := Alnum [86; 111; 100; 97; 102; 111; 110; 101] |};
+     s_pid := 0; s_dcs := 4; s_vp := VpAbsent; s_ud := UdOctets [1; 2; 3; 4] |}.
+Lemma w_alnum_example :
+  sms_remarshal (layout_submit w_alnum_ok) = Ok (layout_submit w_alnum_ok) /\
+  layout_submit w_alnum_ok = hx "0001070ED0D637396C7EBBCB00040401020304".
+Proof.
+  split; [|vm_compute; reflexivity].
+  apply submit_roundtrip.
+  - unfold submit_wf, addr_wf, vp_wf, ud_wf; cbn. wf_tac.
+  - unfold addr_rt_ok, alnum_rt_ok, plain; cbn. split; [|reflexivity].
+    repeat constructor; try lia; intro; discriminate.
+  - exact I.
+  - unfold ud_ends_in_zero. vm_compute. discriminate.
+Qed.
